@@ -811,7 +811,13 @@ def main(chk: Check):
                     pinned_ok = {sub[j] for j in range(len(sub))} - {sub[j] for j in r2[0]}
     # ---- (B) concrete property failures
     reported = 0
-    for b in ref_bad[:4]:
+    groups_seen = {}
+    for b in ref_bad:       # one example per kind of disagreement (class predicates x differing conjuncts)
+        diff = tuple(x == y for x, y in zip(b["statement_conjuncts[mask,keywords,license]"],
+                                            b["implementation_conjuncts"]))
+        key = (empty_global_entry_stable(b["world"]), wildcard_fast_path(b["world"]), diff)
+        groups_seen.setdefault(key, b)
+    for b in list(groups_seen.values())[:6]:
         classify(chk, b["world"], {"what": "visibility differs from the statement's reference evaluator",
                                    "input": b})
         reported += 1
